@@ -757,3 +757,150 @@ class HelperCalls:
             args = self.bind_args(fn[1], pos, kw, self_value=fn[2])  # type: ignore[attr-defined]
             return self.call_node(fn[1], args, {})  # type: ignore[attr-defined]
         return super().apply_other(fn, pos, kw, node)  # type: ignore[misc]
+
+
+# ---------------------------------------------------------------------------------------------
+def inline_all(prog: Program, fn: FuncInfo, stop: Iterable[str] = (), depth: int = 5) -> FuncInfo:
+    """The *unit of behaviour* view of `fn`: every statement that is just a call of a private method /
+    module function / local closure (`h(..)`, `x = h(..)`, `return h(..)`, awaited or not) is replaced
+    by the callee's body, whatever its shape and whether or not the engine lists it as an anchor:
+
+        p__k = <argument> ...                      # parameters, evaluated once and in order
+        while True:                                # only when the callee has early returns
+            <body, `return v` -> `__ret_k = v; break`>
+            __ret_k = None; break
+        x = __ret_k
+
+    so that rules can be stated on the paths of the public entry point (one tick, one call) and do not
+    care which private function holds which part.  Callees named in `stop`, callees whose `return` sits
+    inside one of their own loops, generators and recursive calls are left as calls.  The names of
+    the functions read in are recorded in `node._inlined`."""
+    stop_s = set(stop)
+    root = copy.deepcopy(fn.node)
+    inlined: set[str] = set()
+    counter = 0
+
+    def callee_of(call: ast.Call, nested: dict[str, FuncNode]) -> FuncInfo | None:
+        f = call.func
+        tgt: FuncInfo | None = None
+        if isinstance(f, ast.Name) and f.id in nested:
+            tgt = FuncInfo(f.id, fn.module, nested[f.id], None, fn)
+        elif isinstance(f, ast.Name) and f.id.startswith("_") and f.id in fn.module.functions:
+            tgt = fn.module.functions[f.id]
+        elif isinstance(f, ast.Attribute) and isinstance(f.value, ast.Name) and fn.cls is not None \
+                and f.attr.startswith("_") and not f.attr.startswith("__") and f.value.id in ("self", "cls", fn.cls.name):
+            m = prog.resolve_method(fn.cls, f.attr)
+            if m is not None and not any(f.attr in sub.methods for sub in prog.subclasses(fn.cls)):
+                tgt = m
+        if tgt is None or tgt.name in stop_s or tgt.node is fn.node:
+            return None
+        if any(u(d) in ("property", "abstractmethod") for d in tgt.node.decorator_list):
+            return None
+        return tgt
+
+    def returns_in_loops(body: list[ast.stmt]) -> bool:
+        def walk(stmts: list[ast.stmt], in_loop: bool) -> bool:
+            for st in stmts:
+                if isinstance(st, (ast.FunctionDef, ast.AsyncFunctionDef, ast.ClassDef)):
+                    continue
+                if isinstance(st, ast.Return) and in_loop:
+                    return True
+                loop = in_loop or isinstance(st, (ast.For, ast.AsyncFor, ast.While))
+                for field in ("body", "orelse", "finalbody"):
+                    sub = getattr(st, field, None)
+                    if isinstance(sub, list) and sub and isinstance(sub[0], ast.stmt) and walk(sub, loop):
+                        return True
+                for h in getattr(st, "handlers", []):
+                    if walk(h.body, loop):
+                        return True
+                for c in getattr(st, "cases", []):
+                    if walk(c.body, loop):
+                        return True
+            return False
+        return walk(body, False)
+
+    def replace_returns(stmts: list[ast.stmt], ret: str) -> list[ast.stmt]:
+        out: list[ast.stmt] = []
+        for st in stmts:
+            if isinstance(st, (ast.FunctionDef, ast.AsyncFunctionDef, ast.ClassDef)):
+                out.append(st)
+                continue
+            if isinstance(st, ast.Return):
+                val = st.value if st.value is not None else ast.Constant(None)
+                out.append(ast.copy_location(ast.Assign(targets=[ast.Name(id=ret, ctx=ast.Store())], value=val), st))
+                out.append(ast.copy_location(ast.Break(), st))
+                continue
+            for field in ("body", "orelse", "finalbody"):
+                sub = getattr(st, field, None)
+                if isinstance(sub, list) and sub and isinstance(sub[0], ast.stmt):
+                    setattr(st, field, replace_returns(sub, ret))
+            for h in getattr(st, "handlers", []):
+                h.body = replace_returns(h.body, ret)
+            for c in getattr(st, "cases", []):
+                c.body = replace_returns(c.body, ret)
+            out.append(st)
+        return out
+
+    for _ in range(depth):
+        changed = False
+        nested = {n.name: n for n in ast.walk(root) if isinstance(n, (ast.FunctionDef, ast.AsyncFunctionDef)) and n is not root}
+        for suite in list(_suite_lists(root)):
+            i = 0
+            while i < len(suite):
+                s = suite[i]
+                val = s.value if isinstance(s, (ast.Expr, ast.Assign, ast.AnnAssign, ast.Return)) else None
+                call = unawait(val) if val is not None else None
+                tgt = callee_of(call, nested) if isinstance(call, ast.Call) else None
+                if tgt is not None and isinstance(call.func, ast.Name) and call.func.id in nested \
+                        and any(s is x for x in ast.walk(nested[call.func.id])):
+                    tgt = None  # a closure calling itself
+                if tgt is None or counter >= 40 or tgt.is_async != isinstance(val, ast.Await) \
+                        or any(isinstance(x, (ast.Yield, ast.YieldFrom, ast.Global, ast.Nonlocal)) for x in ast.walk(tgt.node)):
+                    i += 1
+                    continue
+                assert isinstance(call, ast.Call)
+                body0 = _strip_doc(tgt.node.body)
+                binds = _bind(tgt.node, call)
+                if binds is None or not body0 or returns_in_loops(body0):
+                    i += 1
+                    continue
+                counter += 1
+                tag = f"{tgt.name.strip('_')}{counter}"
+                hb = copy.deepcopy(body0)
+                ren = {n: f"{n}__{tag}" for n in set(binds) | {
+                    x.id for st in hb for x in ast.walk(st) if isinstance(x, ast.Name) and isinstance(x.ctx, (ast.Store, ast.Del))}}
+                for st in hb:
+                    for x in ast.walk(st):
+                        if isinstance(x, ast.Name) and x.id in ren:
+                            x.id = ren[x.id]
+                        elif isinstance(x, ast.ExceptHandler) and x.name in ren:
+                            x.name = ren[x.name]
+                pre: list[ast.stmt] = [ast.copy_location(ast.Assign(
+                    targets=[ast.Name(id=ren[p], ctx=ast.Store())], value=copy.deepcopy(a)), s) for p, a in binds.items()]
+                n_ret = sum(1 for st in hb for x in ast.walk(st) if isinstance(x, ast.Return))
+                straight = n_ret == 0 or (n_ret == 1 and isinstance(hb[-1], ast.Return))
+                new: list[ast.stmt]
+                if straight:
+                    tail = hb[-1] if isinstance(hb[-1], ast.Return) else None
+                    new = pre + (hb[:-1] if tail is not None else hb)
+                    result: ast.AST = tail.value if tail is not None and tail.value is not None else ast.Constant(None)
+                else:
+                    ret = f"__ret_{tag}"
+                    wbody = replace_returns(hb, ret) + [
+                        ast.copy_location(ast.Assign(targets=[ast.Name(id=ret, ctx=ast.Store())], value=ast.Constant(None)), s),
+                        ast.copy_location(ast.Break(), s)]
+                    new = pre + [ast.copy_location(ast.While(test=ast.Constant(True), body=wbody, orelse=[]), s)]
+                    result = ast.Name(id=ret, ctx=ast.Load())
+                if not isinstance(s, ast.Expr):
+                    s2 = copy.copy(s)
+                    s2.value = result  # type: ignore[attr-defined]
+                    new.append(s2)
+                suite[i:i + 1] = new or [ast.copy_location(ast.Pass(), s)]
+                inlined.add(tgt.name)
+                changed = True
+                i += len(pre)
+        if not changed:
+            break
+    ast.fix_missing_locations(root)
+    root._inlined = inlined  # type: ignore[attr-defined]
+    return FuncInfo(fn.name, fn.module, root, fn.cls, fn.outer)
